@@ -19,9 +19,13 @@ props = {
  "C11": ("Every ReadState is compared with the highest commit index any node had reported when the request was issued; answers require a committed entry of the leader's term and heartbeat responses from a reference joint majority after the request arrived.", "§7 C11"),
  "C14": ("Every call into raft/storage in every explored execution of every scenario pool runs under recover(); any panic raised by the library is a violation (harness faults are reported separately).", "§7 C14"),
 }
+props["C12"] = ("Exhaustive enumeration of voter sets (sizes 0..9, scattered ids), acked-index vectors and vote vectors, and of all ordered pairs of subsets of {1..4} for joint configurations; quorum.MajorityConfig/JointConfig and tracker.Committed/TallyVotes are compared case by case with the literal arithmetic of the statement. The domain is finite and enumerated completely.", "§8 C12")
+props["C13"] = ("Breadth-first closure of all configurations over ids 1..4 reachable from every single-voter configuration under every Simple/EnterJoint/LeaveJoint operation with every change sequence of length <= 2 (incl. id 0 and duplicates); every transition calls the real confchange.Changer and is compared with an independent reference model, the invariants, input preservation and the ConfState round trip. Finite and closed (exhaustive).", "§8 C13")
+props["C18"] = ("Breadth-first enumeration of all operation sequences up to a length bound over the real raftLog+MemoryStorage pair (append, conflicting follower appends from one consistent leader log per term, Ready/persist/acknowledge pipeline with stale acknowledgements, restore, commit/apply, snapshot+compaction); after every operation every first/last/term/slice/Entries query is compared with an abstract list-with-compacted-prefix.", "§8 C18")
+TECH = {"C12": "exhaustive input enumeration over a finite domain against a reference model (explicit-state, no sampling)",
+        "C13": "explicit-state breadth-first closure over the real confchange.Changer against a reference model",
+        "C18": "explicit-state breadth-first search over operation sequences of the real raftLog/MemoryStorage against an abstract log"}
 NOT_YET = {
- "C12": "check not built yet in this revision (stand-alone exhaustive explorer planned, DESIGN §8)",
- "C13": "check not built yet in this revision (stand-alone closure explorer planned, DESIGN §8)",
  "C15": "check not built yet in this revision (bounded convergence suffix planned, DESIGN §7)",
  "C16": "check not built yet in this revision (flow-control shadow accounting planned, DESIGN §7)",
  "C17": "check not built yet in this revision (tick-driven scenarios planned, DESIGN §7)",
